@@ -1206,6 +1206,7 @@ CHECKS["C17"] = c17
 HANDLERS_CFG = """SPECIFICATION Spec
 CONSTANTS
   RefLock = %s
+  GCWaits = TRUE
   Setups <- MCSetups
   Combos <- MCCombos
   Family = "%s"
@@ -1288,7 +1289,7 @@ def c11(prop, tier, seed, work):
     vh = vlib.build_harness(work)
     # (1) the design: every interleaving of the store calls of two (thorough: three) requests is linearizable
     notes, states, trans = [], 0, 0
-    for fam in (["pairs"] if quick else ["pairs", "triples"]):
+    for fam in (["pairs", "gcpairs", "gctriples"] if quick else ["pairs", "triples", "gcpairs", "gctriples"]):
         res = vlib.tlc(work, "hd-" + fam, "MCHandlers", HANDLERS_CFG % ("TRUE", fam, HANDLERS_PROPS), workers=vlib.WORKERS, timeout=3000)
         vlib.tlc_ok(res, "Handlers " + fam)
         states += res["distinct"]
@@ -1299,17 +1300,24 @@ def c11(prop, tier, seed, work):
     if "Invariant Linearizable is violated" not in res["out"]:
         raise Inconclusive("Handlers with RefLock = FALSE no longer exhibits the lost update: the model lost its teeth\n" + res["out"][-1500:])
     notes.append("Handlers demo with RefLock = FALSE: TLC reports the lost referrer update (sanity of Linearizable)")
+    res = vlib.tlc(work, "hd-gcdemo", "MCHandlers", (HANDLERS_CFG % ("TRUE", "gcpairs", HANDLERS_PROPS)).replace("GCWaits = TRUE", "GCWaits = FALSE"), workers=2, timeout=600)
+    if "Invariant Linearizable is violated" not in res["out"]:
+        raise Inconclusive("Handlers with a collection that does not wait for the requests in flight is no longer rejected\n" + res["out"][-1500:])
+    notes.append("Handlers gcpairs with GCWaits = FALSE: TLC reports a non linearizable outcome (sanity of the token / wait group protocol)")
     # (2) schedules chosen by TLC, replayed on the real server through the store tap; (3) judged by TLC against Registry
     episodes = []
     # schedules of the model as it is (the real requests follow them call by call) and of the model without the mutex
     # (adversarial: they interleave the critical sections; the real requests wait there, the scheduler goes on)
     for fam, lock, num in (("pairs", "TRUE", 150 if quick else 500), ("triples", "TRUE", 50 if quick else 250),
-                           ("pairs", "FALSE", 150 if quick else 500), ("triples", "FALSE", 50 if quick else 250)):
+                           ("pairs", "FALSE", 150 if quick else 500), ("triples", "FALSE", 50 if quick else 250),
+                           ("gcpairs", "TRUE", 30 if quick else 150), ("gctriples", "TRUE", 30 if quick else 200)):
         g = vlib.tlc(work, "hd-gen-%s-%s" % (fam, lock), "MCHandlers", HANDLERS_CFG % (lock, fam, "INVARIANT Emit"), simulate="num=%d" % num, depth=120, seed=seed,
                      workers=1, timeout=1200)
         eps = vlib.tlc_prints(g["out"], "EPISODE")
         if "Error:" in g["out"] or len(eps) < num // 2:
             raise Inconclusive("MCHandlers generator failed:\n" + g["out"][-2000:])
+        if fam.startswith("gc"):
+            eps = [dict(e, gcon=True) for e in eps]
         episodes += [dict(e, adv=True) for e in eps] if lock == "FALSE" else eps
     nmodel = len(episodes)
     episodes += [free_episode(s, r) for s, r in FREE_EPISODES] * (2 if quick else 8)
